@@ -671,6 +671,10 @@ func (th *thread) visit(fr *frame, instr ssa.Instruction) bool {
 	case *ssa.Next:
 		fr.set(instr, fr.get(instr.Iter).(iterator).next(m))
 	case *ssa.FieldAddr:
+		if len(m.racy) > 0 && len(m.threads) > 1 && m.racyInstr(instr) {
+			// an unprotected access to a field in the racy set is a scheduling point
+			th.yield("racy-field")
+		}
 		p := fr.get(instr.X).(ptr)
 		if p.slot == nil {
 			m.goPanic("runtime error: invalid memory address or nil pointer dereference")
@@ -708,6 +712,26 @@ func (th *thread) visit(fr *frame, instr ssa.Instruction) bool {
 		panic(engineError{fmt.Sprintf("unexpected instruction %T", instr)})
 	}
 	return false
+}
+
+var racyInstrCache sync.Map // *ssa.FieldAddr -> field name
+
+func (m *machine) racyInstr(instr *ssa.FieldAddr) bool {
+	var name string
+	if v, ok := racyInstrCache.Load(instr); ok {
+		name = v.(string)
+	} else {
+		if st, ok := deref(instr.X.Type()).Underlying().(*types.Struct); ok {
+			name = st.Field(instr.Field).Name()
+		}
+		racyInstrCache.Store(instr, name)
+	}
+	if !m.racy[name] {
+		return false
+	}
+	// only target-package code (not the harness, not std)
+	fn := instr.Parent()
+	return fn != nil && !strings.Contains(fn.Name(), "verif") && !strings.HasPrefix(fn.Name(), "vk")
 }
 
 const maxAlloc = 1 << 24
